@@ -150,7 +150,7 @@ PLAN = {
         crate_modules=["__venv"],
         verus=["c01_rmw_fold.rs", "c03_history.rs"],
         functions=[],
-        assumptions=[A2, ENV, "ledger invariant 'shared = direct + sum of flushed batches' is proved per step from arbitrary states (sequential) and lifted to all histories by the Verus lemmas (sum_append / conservation); the vector forms (GenericLocalCounterVec, LocalHistogramVec: with_label_values cache, remove_label_values, drop of the whole vector) are NOT under contract in the quick tier: their children are the local metrics covered here, their cache is a map keyed by the C05 hash"],
+        assumptions=[A2, ENV, "ledger invariant 'shared = direct + sum of flushed batches' is proved per step from arbitrary states (sequential) and lifted to all histories by the Verus lemmas (sum_append / conservation); the local VECTOR forms (GenericLocalCounterVec, LocalHistogramVec: with_label_values cache, remove_label_values, clone, drop of the whole vector) are NOT under contract: a harness over one pre-populated child (kani/counter_c12v.rs, kept but not registered) ran into the 25-minute limit (entry API + closures + Arc clones); their children are the local metrics covered here and their cache is a map keyed by the C05 hash"],
     ),
     "C17": dict(
         title="Fallible APIs report bad input as Err and do not panic",
